@@ -63,6 +63,9 @@ CHECKS = {
  "C14": ("exploration", "directed schedules through hook points (method x parking point x Close position) + stress, outcome classification, race detector",
          "Every LogStore/StableStore method parked at every hook point on its path while Close runs (or Close parked while the method runs); results must be correct or ErrClosed, never panic / other error / deadlock (goroutine blocked inside raft-wal after everything was released); after Close: all methods ErrClosed, second Close nil, rotation goroutine exited, no handles open, reopen shows everything acknowledged.",
          "hook points added under build tag verif; 15s watchdog whose expiry is a violation only with the goroutine blocked inside raft-wal", "E2 sched", "4 C14"),
+ "C08": ("exploration", "lock-step stable-map model + per-key porcupine register check under concurrency + SIGKILL of child processes on real BoltDB",
+         "Sequential Set/Get/SetUint64/GetUint64 over key and value classes interleaved with all log op templates and reopens (stable model and log bounds compared after every step, simfs and real BoltDB); concurrent per-key register histories on real BoltDB while a writer appends/rotates/truncates, checked by porcupine partitioned by key under the race detector; child processes doing Set+StoreLogs on the production stack killed with SIGKILL at random acknowledgement counts, three lifetimes per directory.",
+         "BoltDB key limits; SIGKILL is process death (page cache survives), power loss of wal-meta.db is not modelled here (bbolt trusted)", "E4 model + E3 proc", "4 C08"),
 }
 
 NOT_YET = {}
